@@ -265,6 +265,12 @@ def run_check(pid, spec, tier, seed, scratch, args, t0):
         violations.append(("fatal:" + crash, dst, "process died: " + crash))
 
     # ---- 4. optional native fuzz stage (thorough only)
+    # events a check could not confirm by running the case again are kept for inspection; they are not verdicts
+    for f in glob.glob(os.path.join(scratch, "unconfirmed-*.json")):
+        dst = os.path.join(replay_dir, "%s-seed%d-%s" % (pid, seed, os.path.basename(f)))
+        shutil.copy(f, dst)
+        log("note: unconfirmed event kept at %s (counted in the evidence, not a verdict)" % dst)
+
     fuzz_info = None
     if tier == "thorough" and spec.get("fuzz") and not args.parts:
         fuzz_info, fv = run_fuzz(pid, spec, scratch, replay_dir)
